@@ -20,6 +20,7 @@ def run(ctx):
     from wcmatch import glob as Gm, wcmatch as WM
     rng, seed = seeded_rng('c06')
     ctx.proof('Properties/C06.v')
+    globcommon.gsplit_corr(ctx, seeded_rng('gsplit')[0])
     stats = {'evals': 0, 'nontriv': set()}
 
     def on_case(T, spec, pp, pattern, c, fv, got_list, lb, ub, sw):
